@@ -20,12 +20,14 @@ def entries_campaign(rep, rng, n, features, structured_choices=(False, True), ri
     search) and with the model (correspondence).  Returns the generated cases."""
     allcases = []
     dist = {"files": 0, "statements_expected": 0, "with_directive": 0, "with_decoy": 0}
-    for structured in structured_choices:
-        cases = [gen.cfl_file(rng, structured, rich=rng.random() < rich_p, features=features, n_items=n_items)
-                 for _ in range(n)]
+    for structured, configured in [(st, cf) for st in structured_choices for cf in gen.CONFIG_SETS]:
+        share = n // 2 if configured is gen.CONFIG_SETS[0] else max(8, n // (2 * (len(gen.CONFIG_SETS) - 1)))
+        cases = [gen.cfl_file(rng, structured, rich=rng.random() < rich_p, features=features, n_items=n_items,
+                              configured=configured) for _ in range(share)]
         texts = [c[0] for c in cases]
-        impl = drv.entries_of(texts, structured, gen.MACROS_ARG)
-        model = drv.model_entries_of(texts, structured, gen.MACROS_ARG) if model_ok else None
+        margs = gen.macros_arg(configured)
+        impl = drv.entries_of(texts, structured, margs)
+        model = drv.model_entries_of(texts, structured, margs) if model_ok else None
         lines_impl = None
         corr_bad = []
         for i, ((b, exp), got) in enumerate(zip(cases, impl)):
@@ -37,10 +39,10 @@ def entries_campaign(rep, rng, n, features, structured_choices=(False, True), ri
             g = norm(got)
             if g != exp:
                 cls = finding_classifier(b, exp, g) if finding_classifier else None
-                rep.violation("%s file (structured=%s): the finder returns %s, the property text demands %s" % (
-                    label, structured, json.dumps(g)[:300], json.dumps(exp)[:300]),
-                    {"kind": "entries", "structured": structured, "file_b64": gen.b64(b), "expected": exp, "got": g},
-                    finding_class=cls)
+                rep.violation("%s file (structured=%s, macros %s): the finder returns %s, the property text demands %s" % (
+                    label, structured, margs, json.dumps(g)[:300], json.dumps(exp)[:300]),
+                    {"kind": "entries", "structured": structured, "macros": margs, "file_b64": gen.b64(b),
+                     "expected": exp, "got": g}, finding_class=cls)
             if model is not None:
                 # the model prints the same line protocol as the hook client
                 want = "entries %d" % len(got) if isinstance(got, list) else None
@@ -54,7 +56,7 @@ def entries_campaign(rep, rng, n, features, structured_choices=(False, True), ri
                                           "implementation": g, "model": m})[:2500])
         rep.extra["correspondence_runs"] = rep.extra.get("correspondence_runs", 0) + (len(cases) if model is not None else 0)
         rep.extra["correspondence_disagreements"] = rep.extra.get("correspondence_disagreements", 0) + len(corr_bad)
-        allcases += [(structured, b, exp) for b, exp in cases]
+        allcases += [(structured, b, exp) for b, exp in cases if configured is gen.CONFIG_SETS[0]]
     d0 = rep.extra.get("input_distribution", {})
     for k, v in dist.items():
         d0[k] = d0.get(k, 0) + v
@@ -114,7 +116,7 @@ def binary_campaign(rep, cases, per_tree=6, limit=40):
 
 def replay_entries(r):
     b = gen.unb64(r["file_b64"])
-    got = norm(drv.entries_of([b], r["structured"], gen.MACROS_ARG)[0])
+    got = norm(drv.entries_of([b], r["structured"], r.get("macros", gen.MACROS_ARG))[0])
     print(b.decode("utf-8", "replace"))
     print("implementation:", got)
     print("expected      :", r.get("expected"))
